@@ -775,6 +775,10 @@ class BaseSection(base.Sectionable):
         lst = childlist
         old_index = lst.index(self)
 
+        # Negative positions count from the end of the list, as for list indexing.
+        if new_index < 0:
+            new_index = max(len(lst) + new_index, 0)
+
         # 2 cases: insert after old_index / insert before
         if new_index > old_index:
             new_index += 1
